@@ -135,6 +135,74 @@ let why_name = function 0 -> "in-H" | 1 -> "C02-shadow-builtin(fixed: unreachabl
 let h_counts = Array.make 5 0
 let classify extras og = let k = int_of_nat (why_not_H og extras) in h_counts.(min k 4) <- h_counts.(min k 4) + 1; k
 
+(* ---- pinpointing a structural difference: the smallest sub-expressions of the differing rule whose model translation occurs in
+   the model's closure more often than in the emitted one.  They are printed in pest syntax (CULPRIT lines) so that the driver can
+   build grammars AROUND the construct and search real generated parser vs real VM for a failing input. ---- *)
+let count_sub (s : string) (sub : string) : int =
+  let n = String.length s and m = String.length sub in
+  if m = 0 then 0 else begin
+    let c = ref 0 and i = ref 0 in
+    while !i + m <= n do if String.sub s !i m = sub then (incr c; i := !i + m) else incr i done;
+    !c
+  end
+let pest_lit (bs : byte list) : string =
+  let b = Buffer.create 16 in
+  Buffer.add_char b '"';
+  List.iter (fun x -> let c = int_of_n x in
+    if c = 34 then Buffer.add_string b "\\\"" else if c = 92 then Buffer.add_string b "\\\\" else if c = 10 then Buffer.add_string b "\\n"
+    else if c = 13 then Buffer.add_string b "\\r" else if c = 9 then Buffer.add_string b "\\t"
+    else if c < 32 || c = 127 then Buffer.add_string b (Printf.sprintf "\\x%02X" c) else Buffer.add_char b (Char.chr c)) bs;
+  Buffer.add_char b '"';
+  Buffer.contents b
+let pest_chr (c : int) : string =
+  if c = 39 then "'\\''" else if c = 92 then "'\\\\'" else if c >= 32 && c < 127 then Printf.sprintf "'%c'" (Char.chr c) else Printf.sprintf "'\\u{%X}'" c
+let rec pest_of_oexpr (e : oexpr) : string =
+  match e with
+  | OStr s -> pest_lit s | OInsens s -> "^" ^ pest_lit s
+  | ORange (a, b) -> pest_chr (int_of_n a) ^ ".." ^ pest_chr (int_of_n b)
+  | OIdent n -> string_of_bytes n
+  | OPeekSlice (i, j) -> Printf.sprintf "PEEK[%d..%s]" (int_of_z i) (match j with None -> "" | Some x -> string_of_int (int_of_z x))
+  | OPosPred x -> "&(" ^ pest_of_oexpr x ^ ")" | ONegPred x -> "!(" ^ pest_of_oexpr x ^ ")"
+  | OSeq (a, b) -> "(" ^ pest_of_oexpr a ^ " ~ " ^ pest_of_oexpr b ^ ")" | OChoice (a, b) -> "(" ^ pest_of_oexpr a ^ " | " ^ pest_of_oexpr b ^ ")"
+  | OOpt x -> "(" ^ pest_of_oexpr x ^ ")?" | ORep x -> "(" ^ pest_of_oexpr x ^ ")*" | ORepOnce x -> "(" ^ pest_of_oexpr x ^ ")+"
+  | OSkip ss -> "(!(" ^ String.concat " | " (List.map pest_lit ss) ^ ") ~ ANY)*"
+  | OPush x -> "PUSH(" ^ pest_of_oexpr x ^ ")" | OPushLiteral s -> "PUSH_LITERAL(" ^ pest_lit s ^ ")"
+  | ONodeTag (x, t) -> "(#" ^ string_of_bytes t ^ " = " ^ pest_of_oexpr x ^ ")"
+  | ORestoreOnErr x -> pest_of_oexpr x
+let children (e : oexpr) : oexpr list =
+  match e with
+  | OPosPred x | ONegPred x | OOpt x | ORep x | ORepOnce x | OPush x | ORestoreOnErr x | ONodeTag (x, _) -> [x]
+  | OSeq (a, b) | OChoice (a, b) -> [a; b]
+  | _ -> []
+let esc_field (s : string) : string =
+  let b = Buffer.create (String.length s + 8) in
+  String.iter (fun c -> match c with '\\' -> Buffer.add_string b "\\\\" | '\t' -> Buffer.add_string b "\\t" | '\n' -> Buffer.add_string b "\\n"
+                                     | '\r' -> Buffer.add_string b "\\r" | c -> Buffer.add_char b c) s;
+  Buffer.contents b
+let ty_char = function RNormal -> "n" | RSilent -> "s" | RAtomic -> "a" | RCompound -> "c" | RNonAtomic -> "x"
+(* minimal suspect sub-expressions of rule r; [] when the difference is not inside any sub-expression (wrappers of the rule) *)
+let suspects og u (r : orule) (impl : string) (model : string) : oexpr list =
+  let suspect e =
+    List.exists (fun t -> let s = show_prog t in count_sub model s > count_sub impl s) [gen_expr og u e; gen_expr_atomic og u e] in
+  let rec go e : oexpr list * bool =    (* minimal suspects below or at e, and whether e or something below it is one *)
+    let sub = List.map go (children e) in
+    let below = List.concat (List.map fst sub) in
+    if below <> [] then (below, true) else if suspect e then ([e], true) else ([], false) in
+  fst (go r.oexpr_of)
+let culprit_budget = ref 40
+let print_culprits ~text x og u (what : string) (r : orule option) impl model =
+  if text <> "" && !culprit_budget > 0 then begin
+    let h = int_of_nat (why_not_H og (x = "1")) in
+    let emit ty kind c = decr culprit_budget; Printf.printf "CULPRIT\t%s\t%s\t%s\t%d\t%s\t%s\t%s\n" x ty kind h what (esc_field c) text in
+    match r with
+    | Some r ->
+      let special = is_special_name r.oname in
+      (match (try suspects og u r impl model with _ -> []) with
+       | [] -> emit (ty_char r.oty) (if special then "trivia" else "rule") (pest_of_oexpr r.oexpr_of)
+       | l -> List.iter (fun e -> emit (ty_char r.oty) "expr" (pest_of_oexpr e)) (List.sort_uniq compare l))
+    | None -> if what = "hidden::skip" then emit "n" "skip" "" else emit "n" "builtin" (String.sub what 9 (String.length what - 9))
+  end
+
 (* ---- translation validation of one emitted parser ---- *)
 let check_tv ?(text = "") x orig osexp shown =
   let extras = x = "1" in
@@ -160,16 +228,19 @@ let check_tv ?(text = "") x orig osexp shown =
   cmp "enum" (get "enum") (String.concat "," ((if uses_eoi then ["EOI"] else []) @ names));
   cmp "all_rules" (get "all") (String.concat "," names);
   cmp "hidden::skip" (get "skip") (show_prog (gen_skip og));
+  if get "skip" <> show_prog (gen_skip og) then print_culprits ~text x og u "hidden::skip" None "" "";
   let fns = List.filter_map (fun (k, v) -> if String.length k > 3 && String.sub k 0 3 = "fn:" then Some (String.sub k 3 (String.length k - 3), v) else None) parts in
   let rec firstn k l = if k = 0 then [] else match l with [] -> [] | x :: r -> x :: firstn (k - 1) r in
   let rec dropn k l = if k = 0 then l else match l with [] -> [] | _ :: r -> dropn (k - 1) r in
   let user = firstn n fns and builtin = dropn n fns in
   cmp "rule functions" (String.concat "," (List.map fst user)) (String.concat "," names);
-  List.iteri (fun k (nm, body) -> cmp ("fn " ^ nm) body (closure k)) user;
+  List.iteri (fun k (nm, body) -> cmp ("fn " ^ nm) body (closure k);
+    if body <> closure k then (match List.nth_opt og k with Some r when string_of_bytes r.oname = nm -> print_culprits ~text x og u ("fn " ^ nm) (Some r) body (closure k) | _ -> ())) user;
   cmp "built-in functions" (String.concat "," (List.sort compare (List.map fst builtin))) (String.concat "," (List.sort compare defaults));
   List.iter (fun (nm, body) ->
     let k = match index_of nm fixed_names with Some i -> n + 3 + i | None -> (match index_of nm unames with Some j -> n + 22 + j | None -> -1) in
-    cmp ("built-in " ^ nm) body (if k < 0 then "<not a built-in of the model>" else closure k)) builtin;
+    cmp ("built-in " ^ nm) body (if k < 0 then "<not a built-in of the model>" else closure k);
+    if k >= 0 && body <> closure k then print_culprits ~text x og u ("built-in " ^ nm) None "" "") builtin;
   cmp "start" (get "start") (String.concat "," (List.map (fun r -> r ^ ">" ^ r) (names @ (if uses_eoi then ["EOI"] else []))));
   ignore (classify extras og)
 
